@@ -18,6 +18,7 @@ import (
 
 	"github.com/Ptt-official-app/go-pttbbs/cache"
 	"github.com/Ptt-official-app/go-pttbbs/cmbbs"
+	"github.com/Ptt-official-app/go-pttbbs/cmsys"
 	"github.com/Ptt-official-app/go-pttbbs/ptt"
 	"github.com/Ptt-official-app/go-pttbbs/ptttype"
 	"github.com/Ptt-official-app/go-pttbbs/types"
@@ -213,6 +214,8 @@ func (c *ctl) release(t int) {
 	}
 }
 
+var debugChains bool
+
 var (
 	run      *hx.Run
 	env      *bbsenv.Env
@@ -365,6 +368,15 @@ func runScheduleOnce(ids []string, fillTo int, sched []int, nontrivial bool, fin
 	full := append([]int{}, sched...)
 	for k, t := range sched {
 		c.release(t)
+		if debugChains {
+			e0 := &ptttype.UserID_t{}
+			fmt.Fprintf(os.Stderr, "after release %d: %v | empties head %d next[48]=%d next[49]=%d", t, c.state, cache.Shm.Shm.HashHead[cmsys.StringHashWithHashBits(e0[:])], cache.Shm.Shm.NextInHash[48], cache.Shm.Shm.NextInHash[49])
+			for _, id := range ids {
+				u := userOf(id)
+				fmt.Fprintf(os.Stderr, " head(%s)=%d", id, cache.Shm.Shm.HashHead[cmsys.StringHashWithHashBits(u.UserID[:])])
+			}
+			fmt.Fprintln(os.Stderr)
+		}
 		label := "prefix"
 		if k == len(sched)-1 {
 			label = "complete"
@@ -459,7 +471,13 @@ func runScheduleOnce(ids []string, fillTo int, sched []int, nontrivial bool, fin
 		}
 		uid, err := cache.SearchUserRaw(&userOf(ids[t]).UserID, nil)
 		if err != nil || uid == 0 {
-			run.Fail(last, "lookup", fmt.Sprintf("successful id %q is not found afterwards", ids[t]))
+			u := userOf(ids[t])
+			h := cmsys.StringHashWithHashBits(u.UserID[:])
+			chain := []int{}
+			for p, n := cache.Shm.Shm.HashHead[h], 0; p != -1 && n < 60; p, n = cache.Shm.Shm.NextInHash[p], n+1 {
+				chain = append(chain, int(p))
+			}
+			run.Fail(last, "lookup", fmt.Sprintf("successful id %q is not found afterwards (err %v; bucket %d chain %v; slots %v)", ids[t], err, h, chain, now[40:]))
 			continue
 		}
 		if u, dup := slots[uid]; dup && fold(ids[u]) != fold(ids[t]) {
@@ -583,6 +601,10 @@ func main() {
 		)
 	}
 	exhaustive := true
+	if only := os.Getenv("C15_ONLY"); only != "" {
+		k, _ := strconv.Atoi(only)
+		cfgs = cfgs[k : k+1]
+	}
 	for _, cf := range cfgs {
 		counts := make([]int, len(cf.ids))
 		for i := range counts {
@@ -590,6 +612,28 @@ func main() {
 		}
 		var all [][]int
 		interleavings(counts, func(s []int) { all = append(all, s) })
+		if sc := os.Getenv("C15_SCHED"); sc != "" {
+			var s []int
+			for _, x := range strings.Split(sc, ",") {
+				v, _ := strconv.Atoi(x)
+				s = append(s, v)
+			}
+			debugChains = true
+			runSchedule(cf.ids, cf.fillTo, s, true)
+			continue
+		}
+		if rg := os.Getenv("C15_RANGE"); rg != "" {
+			ab := strings.Split(rg, ":")
+			a, _ := strconv.Atoi(ab[0])
+			b, _ := strconv.Atoi(ab[1])
+			for i, s := range all[a:b] {
+				before := run.Extra["x"]
+				_ = before
+				runSchedule(cf.ids, cf.fillTo, s, true)
+				fmt.Fprintf(os.Stderr, "sched #%d %v\n", a+i, s)
+			}
+			continue
+		}
 		if cf.sample == 0 {
 			for _, s := range all {
 				runSchedule(cf.ids, cf.fillTo, s, true)
